@@ -445,6 +445,9 @@ def m_shutil_move(I_, a, k):
     ctx.used_axioms.add('shutil.move phase model: rename, else copy then '
                         'delete; failures leave partial copies')
     src, dst0 = z3str(a[0]), z3str(a[1])
+    if len(a) > 2 or k:
+        # a non-default copy_function changes what the copy preserves
+        ctx.events.append(('shutil.move-options', sorted(k) + ['positional'] * (len(a) - 2)))
     dst = dst0
     dst_was_dir = False
     if ctx.branch(fs.kind(dst0) == DIR, 'move-dst-isdir'):
@@ -511,7 +514,9 @@ def m_getuid(I_, a, k):
 
 
 def m_isatty(I_, a, k):
-    return mk(I_.ctx.fresh_bool('isatty'))
+    r = mk(I_.ctx.fresh_bool('isatty'))
+    I_.ctx.ghost.setdefault('isatty_calls', []).append((a[0], r))
+    return r
 
 
 class _OpenCM(object):
@@ -524,6 +529,9 @@ def open_model(I_, a, k):
     mode = a[1] if len(a) > 1 else k.get('mode', 'r')
     if not isinstance(mode, str):
         raise OutsideSubset('open with symbolic mode')
+    if len(a) > 2 or set(k) - {'mode'}:
+        raise OutsideSubset('open() with encoding/errors/buffering arguments: '
+                            'decoding behaviour not modelled')
     fs = fs_of(I_)
     ctx = I_.ctx
     p = z3str(path)
@@ -538,6 +546,8 @@ def open_model(I_, a, k):
 
         def read(I2, a2, k2):
             c = I2.ctx
+            if a2 or k2:
+                raise OutsideSubset('file.read(n): partial reads not modelled')
             c.used_axioms.add('text-mode read: returns the decoded content or '
                               'raises UnicodeDecodeError / OSError')
             d = c.choose(3 if not fs.fault_free else 2, 'read-outcome')
